@@ -45,17 +45,37 @@ pub struct Opts1 {
     pub lens: &'static [usize],
     pub max_trailing_axes: usize,
     pub max_lanes: usize,
+    /// occasional size stress: long axes (25..300) and many lanes (32..96)
+    pub stress: bool,
 }
 
 impl Default for Opts1 {
     fn default() -> Self {
-        Opts1 { linear_weight: 1, spline_weight: 2, spline: SplineOpts::default(), max_n_linear: 24, lens: &[1, 2, 3], max_trailing_axes: 3, max_lanes: 8 }
+        Opts1 { linear_weight: 1, spline_weight: 2, spline: SplineOpts::default(), max_n_linear: 24, lens: &[1, 2, 3], max_trailing_axes: 3, max_lanes: 8, stress: true }
     }
 }
 
 impl Case1 {
     pub fn gen<T: Flt>(src: &mut Src, o: &Opts1) -> Case1 {
         if src.weighted(&[o.linear_weight, o.spline_weight]) == 0 {
+            if o.stress && o.max_trailing_axes >= 1 && src.chance(1, 30) {
+                // size stress: a long axis or many lanes; the bulk of the numbers comes from expanded entropy
+                let long = src.bool();
+                let n = if long { src.usize_in(25, 300) } else { src.usize_in(2, 6) };
+                let trailing = if long { trailing_shape(src, 1, &[1, 2, 3]) } else { wide_trailing(src, o.max_trailing_axes) };
+                let lanes = product(&trailing);
+                let axis_class = axis_class(src);
+                let vc = val_class(src);
+                let sc = scale_exp::<T>(src);
+                let dd = if src.chance(1, 5) { DDim::Dyn } else { DDim::of_rank(1 + trailing.len()) };
+                let lay = crate::layout::pick_lay(src);
+                let xlay = crate::layout::pick_lay(src);
+                let ent = expand(src, 3 * n + 3 * n * lanes + 16);
+                let mut s2 = Src::new(&ent);
+                let x = axis::<T>(&mut s2, n, axis_class, None);
+                let data = values::<T>(&mut s2, n * lanes, vc, sc);
+                return Case1 { n, axis_class, x, trailing, lanes, data, dd, strat: StratSel::Linear, lay, xlay };
+            }
             let n = src.usize_in(2, o.max_n_linear);
             let axis_class = axis_class(src);
             let x = axis::<T>(src, n, axis_class, None);
@@ -103,6 +123,12 @@ impl Case1 {
         obs.class(format!("axis:{}", self.axis_class.name()));
         obs.class(format!("ddim:{}", self.dd.name()));
         obs.class(format!("trailing_axes:{}", self.trailing.len()));
+        if self.lanes >= 32 {
+            obs.class("lanes:32+");
+        }
+        if self.n > 40 {
+            obs.class("n:41+");
+        }
         obs.class(format!("datalayout:{}", self.lay.0.name()));
     }
     pub fn describe<T: Flt>(&self) -> Value {
